@@ -731,6 +731,10 @@ func (vc *VC) execDynCall(st *State, call *ssa.CallCommon, instr ssa.Instruction
 			vc.oblige(st, g, r.Label, "requires", site, vc.props(), r.Src, key)
 			st.assume = append(st.assume, g)
 		}
+		// the value's own precondition (whatever function or closure flows here) must hold for these arguments
+		pre := app(vc.applyPreFun(sig), ts...)
+		vc.oblige(st, pre, "callpre", "requires", site, vc.props(), "precondition of the function value "+call.Value.Name(), key)
+		st.assume = append(st.assume, pre)
 		rt := sig.Results().At(0).Type()
 		return Val{T: app(vc.applyFun(sig, nil), ts...), Typ: rt}
 	}
@@ -750,7 +754,7 @@ func (vc *VC) pureFuncAxiom(st *State, fn *ssa.Function, fval Term, binds []Term
 		return
 	}
 	sig := fn.Signature
-	if sig.Results().Len() != 1 {
+	if sig.Results().Len() != 1 || sig.Recv() != nil {
 		return
 	}
 	var def ast.Expr
@@ -856,6 +860,28 @@ func (vc *VC) fnEnvNames(st *State) *Env {
 		if tv, ok := base(ce, name); ok {
 			return tv, true
 		}
+		if (name == "_idx" || name == "_done") && vc.curInstr != nil {
+			// innermost loop containing the current instruction: its range index
+			var best *loopInfo
+			for _, li := range vc.loops {
+				if li.blocks[vc.curInstr.Block()] && (best == nil || len(li.blocks) < len(best.blocks)) {
+					best = li
+				}
+			}
+			if best != nil {
+				for _, ins := range best.header.Instrs {
+					if phi, ok := ins.(*ssa.Phi); ok && phi.Comment == "rangeindex" {
+						if pv, ok := st.vals[phi]; ok {
+							// inside the body the element being processed is phi+1
+							if name == "_idx" {
+								return TV{T: app("+", pv.T, "1"), S: stInt}, true
+							}
+							return TV{T: app("+", pv.T, "1"), S: stInt}, true
+						}
+					}
+				}
+			}
+		}
 		// search executed instructions for a DebugRef of that name (last one wins)
 		var found ssa.Value
 		for _, b := range vc.fn.Blocks {
@@ -937,6 +963,7 @@ func (vc *VC) siteHooks(st *State, key string, instr ssa.Instruction, before boo
 	if vc.contract == nil {
 		return
 	}
+	vc.curInstr = instr
 	match := func(pat string, ord int) bool {
 		if !strings.Contains(key, pat) {
 			return false
